@@ -94,6 +94,22 @@ def rand_json(r, depth=0):
     return d
 
 
+def eq_twin(v):
+    """A JSON value that compares EQUAL to v in Python but has other types inside (1 / 1.0 / True, 0 / 0.0 / False): writing it after v must
+    store IT - a store that skips 'unchanged' values by == hands back the wrong types."""
+    if isinstance(v, bool):
+        return int(v)
+    if isinstance(v, int):
+        return float(v) if abs(v) < 2 ** 53 else v
+    if isinstance(v, float):
+        return int(v) if v == v and abs(v) < 2 ** 53 and v == int(v) and not (v == 0 and math.copysign(1, v) < 0) else v
+    if isinstance(v, list):
+        return [eq_twin(x) for x in v]
+    if isinstance(v, dict):
+        return {k: eq_twin(x) for k, x in v.items()}
+    return v
+
+
 class HarnessObj:
     def __init__(self, a, b):
         self.a, self.b = a, b
@@ -308,14 +324,19 @@ def run_case(desc):
         else:
             leftover = False
         nwrites = r.choice([1, 1, 2, 3])
+        twins = 0
         prev = None
         for w in range(nwrites):
             if bad:
                 break
+            if w and kind == "json" and not deep_eq(eq_twin(value), value):
+                # successive writes of values that are == but not of the same types (every other write: the twin)
+                value = eq_twin(value)
+                twins += 1
             store.write(value)
             got = store.read()
             if not deep_eq(got, value):
-                bad = f"read() after write() returned a different value: wrote {_short(value)} read {_short(got)}"
+                bad = f"read() after write() #{w + 1} returned a different value: wrote {_short(value)} read {_short(got)}"
                 break
             mt = store.get_modified_time()
             if mt is None:
